@@ -622,6 +622,9 @@ func (m *DenseReal32Matrix) Import(filename string) error {
       continue
     }
     fields := strings.Fields(l)
+    if len(fields) == 0 {
+      continue
+    }
     if cols == 0 {
       cols = len(fields)
     }
@@ -659,6 +662,14 @@ func (obj *DenseReal32Matrix) UnmarshalJSON(data []byte) error {
   r := struct{Values []*Real32; Rows int; Cols int}{}
   if err := json.Unmarshal(data, &r); err != nil {
     return err
+  }
+  if r.Rows < 0 || r.Cols < 0 || len(r.Values) != r.Rows*r.Cols {
+    return fmt.Errorf("invalid dense matrix: number of values does not match dimension `%dx%d'", r.Rows, r.Cols)
+  }
+  for i := 0; i < len(r.Values); i++ {
+    if r.Values[i] == nil {
+      return fmt.Errorf("invalid dense matrix: element `%d' is null", i)
+    }
   }
   obj.values = nilDenseReal32Vector(len(r.Values))
   for i := 0; i < len(r.Values); i++ {
